@@ -7,6 +7,8 @@ EXTENDS NumTables, Sequences, TLC, Json
 CONSTANT Full
 
 Strs == {"", "a", "ab", "abcab", "hello world"}
+(* multi-byte text: only for methods whose meaning does not depend on the byte / character unit *)
+UStrs == {"héllo wörld", "日本語"}
 Pats == {"", "a", "ab", "b", "zz", "o w"}
 Pos == -1..6
 ParseTexts == {"", "0", "7", "-7", "+7", "42", "-2147483648", "2147483647", "2147483648", "-2147483649", "12a", "a", " 5", "5 ",
@@ -28,6 +30,9 @@ C(recv, method, args) == [recv |-> recv, method |-> method, args |-> args]
 StrCases ==
     {C(SV(s), m, <<>>) : s \in Strs, m \in {"len", "reverse", "chars"}}
     \cup {C(SV(s), "index", <<IV(p)>>) : s \in Strs, p \in Pos}
+    \cup {C(SV(s), "index", <<IV(p)>>) : s \in UStrs, p \in 0..11}
+    \cup {C(SV(s), m, <<>>) : s \in UStrs, m \in {"reverse", "chars"}}
+    \cup {C(SV(s), m, <<SV(p)>>) : s \in UStrs, m \in {"contains", "concat"}, p \in {"ö", "l", "語", "zz"}}
     \cup {C(SV(s), "split", <<IV(p)>>) : s \in Strs, p \in 0..6}
     \cup {C(SV(s), "repeat", <<IV(p)>>) : s \in Strs, p \in -1..3}
     \cup {C(SV(s), m, <<IV(a), IV(b)>>) : s \in Strs, m \in {"substring", "delete"}, a \in Pos, b \in Pos}
